@@ -47,6 +47,18 @@ a later in-place call on the result is accounted to the caller's cell -/
 theorem results_are_fresh_unless_documented_view :
     (Gen.effTable.filter fun r => r.pub && !r.returnsAlias.isEmpty).map (·.fn) = viewReturning := by decide +kernel
 
+/-- repeating a seeded call gives the same answer because the seed reaches the generator (regenerated call wiring): every function
+with a parameter named `seed` either builds its generator as `default_rng(seed)` from the bare parameter, or builds none and hands
+`seed` itself on, in the seed position, to a function that does (`rule07_dark_current → dark_current`); a call site that drops or
+alters the seed changes the table and this fails -/
+theorem seed_reaches_every_generator :
+    (Gen.effTable.filter fun r => r.takesSeed).all (fun r =>
+      (r.rngArgs == ["seed"] && r.seedForward.isEmpty) ||
+      (r.rngArgs.isEmpty && !r.seedForward.isEmpty && r.seedForward.all fun p => p.2 == "seed")) = true ∧
+    (Gen.effTable.filter fun r => r.takesSeed).map (·.fn) =
+      ["detector.dark_current", "detector.read_noise", "detector.rule07_dark_current", "detector.shot_noise", "wfe.power_spectrum"] := by
+  decide +kernel
+
 /-- no function writes a module-level object or a value handed out by a cached function; the only cache is `_dft2_coords`
 and the only module-level containers are two constant tables -/
 theorem no_shared_state_written :
